@@ -83,16 +83,17 @@ End HandlerLoop.
 
     x/xibc/clients/light-clients/bsc/types/header.go verifySeal
     [for seen, recent := range snap.Recents { if recent == signer { if limit := uint64(len(snap.Validators)/2 + 1);
-        seen > number-limit { return ErrRecentlySigned(signer) } } }]
-    The loop RETURNS from inside; [true] = the error return (its text depends only on [signer]).  [number-limit]
-    is a uint64 subtraction and wraps. *)
+        number < limit || seen > number-limit { return ErrRecentlySigned(signer) } } }]
+    (the [number < limit] guard is fix c10316e).  The loop RETURNS from inside; [true] = the error return (its text
+    depends only on [signer]).  [number-limit] is a uint64 subtraction (it would wrap for number < limit, which the
+    guard now catches first). *)
 Definition sub64 (a b : N) : N := ((a + 2 ^ 64 - b) mod 2 ^ 64)%N.
 
 Section RecentsLoop.
   Context (signer : bytes) (number limit : N).
 
   Definition recent_hit (e : N * bytes) : bool :=
-    bytes_eqb (snd e) signer && (sub64 number limit <? fst e)%N.
+    bytes_eqb (snd e) signer && ((number <? limit) || (sub64 number limit <? fst e))%N.
 
   Fixpoint recents_loop (l : list (N * bytes)) : bool :=
     match l with
@@ -192,7 +193,7 @@ Definition site_table : list (string * string * string * disposition) := [
   ("app/app.go", "(*Teleport).ModuleAccountAddrs", "8b8d88fae09df518", Proved "insert_loop_const_perm");
   ("app/app.go", "GetMaccPerms", "c000710fa0950b50", Proved "copy_loop_perm");
   ("app/app.go", "GetStoreKeys", "b85e3f538d622cf5", Proved "copy_loop_perm");
-  ("x/xibc/clients/light-clients/bsc/types/header.go", "verifySeal", "515466d842662095", Proved "recents_loop_perm");
+  ("x/xibc/clients/light-clients/bsc/types/header.go", "verifySeal", "9178e3619a9a33bf", Proved "recents_loop_perm");
   ("x/xibc/clients/light-clients/bsc/types/snapshot.go", "(*snapshot).validators", "6a066d0ac90ca0cd", Proved "validators_loop_perm");
   (* ethash remote-sealer goroutine (mining work distribution).  Started by New() -> startRemoteSealer and stopped by
      Close(); its maps (works, rates) are filled only by the RPC channels submitWorkCh / submitRateCh, which nothing
